@@ -19,14 +19,29 @@ def task_slots(eng: Engine) -> list[str]:
 
 
 def slot_empty_guard(slot: str):
+    """Guard atoms establishing that no LIVE task is in the slot: `slot is None`,
+    `not slot`, `slot.done()`, `not get_tasks()`, `not any(not t.done() for t in
+    get_tasks())`, and the false edge of `slot is not None and not slot.done()`."""
+    def live_test(e) -> bool:
+        # expression that is true iff a live task may be in the slot(s)
+        s = unparse(e)
+        if isinstance(e, ast.Call) and call_name(e) == 'get_tasks':
+            return True
+        if isinstance(e, ast.Call) and call_name(e) == 'any' and 'get_tasks()' in s and '.done()' in s and 'not ' in s:
+            return True
+        if isinstance(e, ast.BoolOp) and isinstance(e.op, ast.And) and mentions_attr(e, slot) and '.done()' in s and 'is not None' in s:
+            return True
+        return False
+
     def pred(e, pol):
+        if live_test(e):
+            return not pol
         if not mentions_attr(e, slot):
-            # `not transfer.get_tasks()` covers every slot
-            if isinstance(e, ast.Call) and call_name(e) == 'get_tasks':
-                return not pol
             return False
         a = cmp_atom(e)
         if a and a[0] == 'is' and (is_none_const(a[2]) or is_none_const(a[1])):
+            return pol
+        if isinstance(e, ast.Call) and call_name(e) == 'done':
             return pol
         if isinstance(e, ast.Attribute):
             return not pol
@@ -68,7 +83,8 @@ def run(eng: Engine, ck: Check):
         ck.visited(f)
         tgt = next(t for t in st.targets if isinstance(t, ast.Attribute))
         owner = unparse(tgt.value)
-        g = eng.guarded_by(f, st, slot_empty_guard(slot), no_suspension=True)
+        witness = eng.unguarded_path(f, st, slot_empty_guard(slot))
+        g = None if witness is not None else True
         via_selection = False
         if g is None:
             # the transfer comes out of a loop over the result of a selection function which excludes live handles
